@@ -7,6 +7,7 @@ import tpcommon as T
 from engine import Op, set_mode
 
 PROP = "C18"
+QUICK_BOOST = 2
 LEAN_MODULES = ["IsoDT.Props.C18"]
 RULE = ("system zone configurations: every whole-minute standard offset within +-24 h x alternative offset "
         "(same, +-30, +-60 min) x daylight flag x is-dst in {-1,0,1} (exhaustive in the thorough tier, a "
@@ -182,6 +183,9 @@ class Since(Op):
         for _ in range(n):
             m = gens.mode(rng)
             yield (m, T.gen_tp(rng, m))
+        for _ in range(n):
+            m = gens.mode(rng)
+            yield (m, T.gen_year_edge_tp(rng, m))
 
     def line(self, a):
         return "since %s %s" % (a[0], T.tp_str(a[1]))
